@@ -197,6 +197,14 @@ def all_variants():
                         for grp in ("first", "middle", "last"):
                             add("read_filter", "validation", shape="or3", grp=grp, pos=rng_pos(grp, via, rf), via=via, row_filter=rf)
                         add("read_ok", "ok", shape="or2", via=via, row_filter=rf)
+                # 'unknown column in a selection' under EVERY combination of the other options of to_pandas / iter_row_groups / head
+                # (dtypes=, categories=, index=, filters=, row_filter=): the unknown name must be refused whatever else is passed; one
+                # accepted control per combination keeps the option values themselves honest
+                for opts in OPTION_LATTICE:
+                    for via in ("to_pandas", "iter_row_groups", "head"):
+                        for pos in ("first", "middle", "last"):
+                            add("read_col_opts", "validation", pos=pos, via=via, opts=list(opts))
+                        add("read_opts_ok", "ok", via=via, opts=list(opts))
             add("codec_all", "late")
             if st == "simple":
                 # an I/O failure at a chosen write call of a single-file append of a VALID frame (the positions a rejection cannot
@@ -221,6 +229,12 @@ def all_variants():
                 add("merge_ok", "ok")
     for nrg in (1, 2):
         out.append(dict(state="drill1", nrg=nrg, kind="append_to_drill", expect="validation"))
+    # CONFIRMATION STREAM of two open findings (findings.d/C18.json): operations refused at encode time that have no way back
+    for st in STATES:
+        for kind in ("replace_bad_value", "replace_none_nonnull", "replace_codec"):
+            out.append(dict(state=st, nrg=2, kind=kind, expect="late", pos="middle", rg="later"))
+    for st in ("hive", "part1"):
+        out.append(dict(state=st, nrg=2, kind="bad_value_no_summary", expect="late", pos="middle", rg="later"))
     # existing datasets with 11..13 part files (part ids of one AND two digits): a refused append must not touch any of them
     for st in ("hive", "part1", "part2"):
         for nrg in (11, 12, 13):
@@ -232,6 +246,20 @@ def all_variants():
 
 
 SENTINEL_FAMILIES = ["float64_nan", "float32_nan", "Float64", "Float32", "nat_ns", "nat_us"]
+def _lattice():
+    import itertools
+    out = []
+    base = ["dtypes", "categories", "index", "filters"]
+    for n in range(len(base) + 1):
+        for sub in itertools.combinations(base, n):
+            out.append(tuple(sub))
+            if "filters" in sub:
+                out.append(tuple(sub) + ("row_filter",))
+    return [o for o in out if o]          # (the empty combination is kind read_col)
+
+
+OPTION_LATTICE = _lattice()
+FINDING_KINDS = {"replace_bad_value", "replace_none_nonnull", "replace_codec", "bad_value_no_summary"}
 IO_POSITIONS = ["first_write", "middle_write", "footer_thrift", "footer_length", "footer_magic"]
 
 
@@ -241,6 +269,9 @@ def build(v, rng, sid):
     kind = v["kind"]
     if kind.endswith("_many_parts"):
         kind = kind[:-len("_many_parts")]
+    replace_write = kind.startswith("replace_")
+    no_summary = kind == "bad_value_no_summary"
+    kind = {"replace_bad_value": "bad_value", "replace_none_nonnull": "none_nonnull", "replace_codec": "codec_all", "bad_value_no_summary": "bad_value"}.get(kind, kind)
     pos = v.get("pos", rng.choice(["first", "middle", "last"]))
     target = "s" if kind == "none_nonnull" else "b"
     order = ORDERS[pos][target]
@@ -311,10 +342,24 @@ def build(v, rng, sid):
             kw["partition_on"] = list(pon) + ["nope"]
         elif kind == "plain_hasnulls_missing":
             kw["has_nulls"] = ["a", "nope"]
-    elif kind in ("read_col", "read_index", "read_filter", "read_ok"):
+    elif kind in ("read_col", "read_index", "read_filter", "read_ok", "read_col_opts", "read_opts_ok"):
         api = "read"
         cols = [c for c in L.labels(frame0)]
-        if kind == "read_col":
+        if kind in ("read_col_opts", "read_opts_ok"):
+            good = rng.sample([c for c in cols if c not in pon], 2) + (["a"] if "index" in v["opts"] else [])
+            good = list(dict.fromkeys(good))
+            kw = {"columns": place(good, "zz", v["pos"]) if kind == "read_col_opts" else good, "via": v["via"]}
+            if "dtypes" in v["opts"]:
+                kw["dtypes"] = "<the handle's own dtypes of the selected columns>"         # resolved when the call is made
+            if "categories" in v["opts"]:
+                kw["categories"] = []
+            if "index" in v["opts"]:
+                kw["index"] = "a"
+            if "filters" in v["opts"]:
+                kw["filters"] = [["a", ">", -1000]]
+            if "row_filter" in v["opts"]:
+                kw["row_filter"] = True
+        elif kind == "read_col":
             good = rng.sample(cols, 2)
             kw = {"columns": place(good, "zz", v["pos"]), "via": v["via"]}
         elif kind == "read_index":
@@ -386,6 +431,9 @@ def build(v, rng, sid):
     if st != "drill1" and rng.random() < 0.3:      # the existing dataset has already been appended to once
         m = rng.choice([1, 2, 4])
         prior = {"frame": gen_frame(order, st, m, rng), "offsets": offsets(m, min(m, rng.choice([1, 2])))}
+    if replace_write:
+        # an ordinary (non-append) write of the offending frame onto the existing dataset, with the options the dataset was written with
+        kw = dict(kw, append=False, object_encoding={"b": "int", "s": "utf8"}, has_nulls=False)
     oe0 = None
     if kind in ("na_nonnull", "sentinel_ok"):
         # column b of the existing dataset has the numpy counterpart of the family (REQUIRED: has_nulls=False); the appended frame
@@ -413,7 +461,7 @@ def build(v, rng, sid):
             col[1], col[2] = dt, vals(len(col[2]))
         [f for f in frame1 if f[0] == "b"][0][2][bad_rows[0]] = float("nan") if (fam == base and base.startswith("float")) else None
         oe0 = {"b": "utf8", "s": "utf8"} if fam == "string" else None
-    return {"object_encoding0": oe0,"id": sid, "variant": v, "scheme": scheme, "partition_on": list(pon), "frame0": frame0, "offsets0": off0, "prior": prior,
+    return {"drop_summary": no_summary, "object_encoding0": oe0,"id": sid, "variant": v, "scheme": scheme, "partition_on": list(pon), "frame0": frame0, "offsets0": off0, "prior": prior,
             "compression0": rng.choice([None, None, "GZIP"]),
             "api": api, "kwargs": kw, "frame1": frame1, "bad_rows": bad_rows}
 
@@ -497,6 +545,80 @@ def plan_files(sc, df1):
     return rgs, fail
 
 
+# refusals that are decided by the appended frame / codec itself, i.e. also refused by ParquetFile.write_row_groups
+CONT_KINDS = {"cols_extra", "cols_missing", "cols_renamed", "nontext_col", "dup_col", "bad_value", "none_nonnull", "na_nonnull", "bad_dtype",
+              "codec_col", "codec_all", "bad_value_many_parts", "codec_all_many_parts"}
+
+
+def new_rows_match(vals, nold, newv, pcols_):
+    """rows after the first nold = the new rows as a multiset (a partitioned row group stores them grouped by key)"""
+    def norm(c, col):
+        return [str(x) if c in pcols_ and x is not None else x for x in col]
+    got = sorted(map(repr, zip(*[norm(c, col[nold:]) for c, col in vals])))
+    want = sorted(map(repr, zip(*[norm(c, dict(newv)[c]) for c, _ in vals])))
+    return got == want
+
+
+def continuation(sc, pristine, base, old_vals, simple):
+    """class 'refused operation, then CONTINUED use of the same handle': the refused append is made through ONE ParquetFile
+    (pf.write_row_groups); after the exception the handle must describe the dataset as a fresh open does (row groups, num_rows, count,
+    content), a pickled copy of it must read the old content, and the next VALID append through it must add exactly its rows."""
+    import pickle
+    from fastparquet import ParquetFile
+    out = {"problems": [], "refused": None}
+    cdir = os.path.join(base, "c")
+    os.makedirs(cdir)
+    work = os.path.join(cdir, "ds")
+    if simple:
+        shutil.copy(pristine, work)
+    else:
+        shutil.copytree(pristine, work)
+    kw = sc["kwargs"]
+    pf = ParquetFile(work)
+    try:
+        pf.write_row_groups(L.to_df(sc["frame1"]), row_group_offsets=kw.get("row_group_offsets"), compression=kw.get("compression"))
+    except BaseException as e:       # noqa
+        out["refused"] = "%s: %s" % (type(e).__name__, str(e)[:100])
+    if out["refused"] is None:
+        return out                   # this entry point accepts what write() refuses: nothing to continue after
+    def add(sym, text):
+        out["problems"].append((sym, "after pf.write_row_groups was refused (%s): %s" % (out["refused"], text)))
+    try:
+        fresh = ParquetFile(work)
+        mine = [len(pf.row_groups), len(pf.fmd.row_groups), int(pf.fmd.num_rows), int(pf.count())]
+        want = [len(fresh.row_groups), len(fresh.fmd.row_groups), int(fresh.fmd.num_rows), int(fresh.count())]
+        if mine != want:
+            add("handle-state-after-refusal", "the handle has [len(row_groups), len(fmd.row_groups), fmd.num_rows, count()] = %s, a fresh open %s" % (mine, want))
+    except BaseException as e:       # noqa
+        add("handle-state-after-refusal", "inspecting the handle fails: %s: %s" % (type(e).__name__, str(e)[:100]))
+    try:
+        if dsfs.values(pf.to_pandas()) != old_vals:
+            add("handle-read-after-refusal", "the handle no longer reads the previous content")
+    except BaseException as e:       # noqa
+        add("handle-read-after-refusal", "reading through the handle fails: %s: %s" % (type(e).__name__, str(e)[:100]))
+    try:
+        if dsfs.values(pickle.loads(pickle.dumps(pf)).to_pandas()) != old_vals:
+            add("pickled-handle-after-refusal", "a pickled copy of the handle does not read the previous content")
+    except BaseException as e:       # noqa
+        add("pickled-handle-after-refusal", "a pickled copy of the handle cannot read: %s: %s" % (type(e).__name__, str(e)[:100]))
+    # the next valid append through the same handle
+    nok = min(2, len(sc["frame0"][0][2]))
+    frame_ok = [[f[0], f[1], list(f[2][:nok])] for f in sc["frame0"]]
+    try:
+        pf.write_row_groups(L.to_df(frame_ok))
+        vals = dsfs.values(ParquetFile(work).to_pandas())
+        nold = len(old_vals[0][1]) if old_vals else 0
+        newv = dsfs.values(L.to_df(frame_ok))
+        if len(vals[0][1]) != nold + nok:
+            add("next-append-after-refusal", "a valid append of %d rows through the same handle leaves %d rows (%d before)" % (nok, len(vals[0][1]), nold))
+        elif [[c, col[:nold]] for c, col in vals] != old_vals or not new_rows_match(vals, nold, newv, sc["partition_on"]):
+            add("next-append-after-refusal", "a valid append through the same handle: old rows intact %s, new rows as written %s" % (
+                [[c, col[:nold]] for c, col in vals] == old_vals, new_rows_match(vals, nold, newv, sc["partition_on"])))
+    except BaseException as e:       # noqa
+        add("next-append-after-refusal", "a valid append through the same handle fails / cannot be read: %s: %s" % (type(e).__name__, str(e)[:100]))
+    return out
+
+
 def run_scenario(arg):
     sc, scratch = arg
     out = {"id": sc["id"], "error": None}
@@ -509,6 +631,9 @@ def run_scenario(arg):
         pristine = os.path.join(base, "p", "ds")
         try:
             create(pristine, sc)
+            if sc.get("drop_summary"):
+                os.remove(os.path.join(pristine, dsfs.MD))
+                os.remove(os.path.join(pristine, dsfs.CMD))
             pf0 = ParquetFile(pristine)
             old_vals = dsfs.values(pf0.to_pandas())
             want = len(sc["frame0"][0][2]) + (len(sc["prior"]["frame"][0][2]) if sc.get("prior") else 0)
@@ -569,6 +694,10 @@ def run_scenario(arg):
                     if "filters" in kw:
                         kw["filters"] = as_filters(kw["filters"])
                     pfr = ParquetFile(work, open_with=rec.open_with)
+                    if isinstance(kw.get("dtypes"), str):
+                        # the handle's own dtypes of the SELECTED known columns (a dtypes= dict naming more columns than columns= makes
+                        # the unchanged tree fail in read_row_group - an option interplay outside this property, noted in notes/C18.md)
+                        kw["dtypes"] = {c: t for c, t in pfr.dtypes.items() if c in kw["columns"]}
                     if via == "to_pandas":
                         pfr.to_pandas(**kw)
                     elif via == "iter_row_groups":
@@ -588,7 +717,8 @@ def run_scenario(arg):
                     # and _sort_part_names cannot rename (observation recorded in notes/C09.md); the audit hook records the calls
                     write(work, L.to_df(sc["frame1"]), **sc["kwargs"])
                 else:
-                    write(work, L.to_df(sc["frame1"]), open_with=rec.open_with, mkdirs=rec.mkdirs, **sc["kwargs"])
+                    write(work, L.to_df(sc["frame1"]), open_with=(dsfs.rec_fs(rec).open if sc.get("drop_summary") else rec.open_with),
+                          mkdirs=rec.mkdirs, **sc["kwargs"])
             except BaseException as e:       # noqa
                 raised = "%s: %s" % (type(e).__name__, str(e)[:160].replace("\n", " "))
         snap1 = dsfs.snapshot(root)
@@ -612,6 +742,8 @@ def run_scenario(arg):
         except BaseException as e:           # noqa
             out["read"] = "unreadable"
             out["read_detail"] = "%s: %s" % (type(e).__name__, str(e)[:160])
+        if sc["api"] == "write" and sc["kwargs"].get("append") is True and sc["variant"]["kind"] in CONT_KINDS:
+            out["cont"] = continuation(sc, pristine, base, old_vals, simple)
         if simple:
             out["f0"] = snap0["ds"]
             out["f1"] = snap1.get("ds")
@@ -647,6 +779,8 @@ def judge(sc, res):
         problems.append(("content-changed" if res["read"] == "other" else "unreadable",
                          "after the %s a fresh open reads %s (%s)" % ("exception " + res["raised"] if res["raised"] else "call", res["read"],
                                                                       res.get("read_detail", "%s rows, before %s" % (res.get("nrows"), res["nold"])))))
+    for sym, text in (res.get("cont") or {}).get("problems", []):
+        problems.append((sym, text))
     if expect == "validation" and res["new"]:
         problems.append(("validation-rejection-left-new-files", "new files: %s" % res["new"][:4]))
     return problems
@@ -681,9 +815,9 @@ def run(ctx):
     if ctx.quick():
         by = {}
         for v in variants:
-            by.setdefault((v["state"], v["kind"], v.get("family"), v.get("oe"), v.get("where")), []).append(v)
+            by.setdefault((v["state"], v["kind"], v.get("family"), v.get("oe"), v.get("where"), tuple(v.get("opts") or ())), []).append(v)
         variants = [v for _, vs in sorted(by.items())
-                    for v in (vs if vs[0]["kind"].startswith("read_") else rng.sample(vs, min(len(vs), 1 if vs[0].get("family") else (4 if vs[0]["expect"] == "late" else 2))))]
+                    for v in (vs if (vs[0]["kind"].startswith("read_") and not vs[0].get("opts")) else rng.sample(vs, min(len(vs), 1 if vs[0].get("family") else (4 if vs[0]["expect"] == "late" else 2))))]
     else:
         variants = variants * 3                   # three random frames / parameter draws per variant
     scs = [build(v, rng, i) for i, v in enumerate(variants)]
@@ -736,6 +870,8 @@ def run(ctx):
         if v["kind"].startswith("read_"):
             ctx.count("read_shape", "%s/%s/grp=%s/pos=%s/%s/row_filter=%s" % (v["kind"], v.get("shape"), v.get("grp"), v.get("pos"), v.get("via"), v.get("row_filter")))
         ctx.count("outcome", "%s/%s/%s" % (v["expect"], "raised" if res["raised"] else "returned", res["read"]))
+        if res.get("cont"):
+            ctx.count("continued_on_the_same_handle_after_refusal", "%s: %s" % (v["kind"], "refused, then len/read/pickle/next append checked" if res["cont"]["refused"] else "write_row_groups accepts it"))
         wrote = any(c[0] not in ("mkdir", "close") for c in res["trace"])
         for sym, text in judge(sc, res):
             ctx.fail({"component": "write_simple.append" if v["state"] == "simple" else "write_multi", "symptom": sym, "kind": v["kind"],
@@ -748,6 +884,9 @@ def run(ctx):
         cmds.append(("verdict", res["request"], res["dset"]))
         meta.append(("verdict", short, res, sc))
         tr_nodata = dsfs.sx_trace([(c[0], c[1], b"") if c[0] == "write" else c for c in res["trace"]])
+        if v["kind"] in FINDING_KINDS:
+            ctx.count("confirmation_stream", "%s/%s: %s" % (v["kind"], v["state"], "reproduced" if judge(sc, res) else "dataset intact"))
+            continue                     # (no rollback exists for these: the proved trace relations are not claimed for them)
         if v["expect"] == "validation":
             cmds.append(("no_write", tr_nodata))
             meta.append(("no_write", short, res, sc))
